@@ -141,7 +141,7 @@ def self_field(o, name):
 
 
 def run(chk, prog):
-    chk.rules_live = ["R1", "R2"]
+    chk.rules_live = ["R1", "R2", "R3"]
     chk.explanation = (
         "Carry-over rules (value-origin analysis over the MIR of the editor): for every schema struct "
         "the editor rebuilds, each field is either regenerated by design (spec_version, version, "
@@ -271,7 +271,31 @@ def run(chk, prog):
             ok2 = any(o.kind == "param" and o.key[1] == "targets" and o.fields == ("signed",) for o in tctx.origins.of_operand(t.args[1]))
         chk.require(ok1 and ok2, "R1", tctx.fn, "keeps-signed-targets-and-editor",
                     "RepositoryEditor::targets does not keep the loaded Signed<Targets> and build its editor from targets.signed")
+        # every editor it installs is built by from_targets(_, targets.signed, _) (the constructor R1 "loads:*"
+        # proves complete) — not by some other route that might keep fields of a previous (blank) editor
+        bad_src = []
+        for b in tctx.body.blocks:
+            if b.cleanup:
+                continue
+            for s in b.stmts:
+                if s.k == "assign" and s.place.fields()[-1:] == ("targets_editor",) and s.rv.ops:
+                    for o in deep_origins(tctx, s.rv.ops[0], 3, stop=lambda y: y.kind == "call"):
+                        if o.kind == "call" and not is_call(o, TE + "from_targets"):
+                            bad_src.append(o)
+                        if o.kind == "call" and is_call(o, TE + "from_targets"):
+                            a1 = tctx.origins.of_operand(o.extra.args[1])
+                            if not (a1 and all(x.kind == "param" and x.key[1] == "targets" and x.fields == ("signed",) for x in a1)):
+                                bad_src.append(o)
+        chk.require(not bad_src, "R1", tctx.fn, "editor-only-from-loaded-targets",
+                    "RepositoryEditor::targets installs an editor obtained from %s: only TargetsEditor::from_targets(.., "
+                    "targets.signed, ..) is known to carry over targets, delegations and unknown members"
+                    % sorted(set(map(repr, bad_src)))[:3])
     r2_delegated(chk, prog)
+    # R3: 'nothing is dropped merely by passing through an update' includes the write step: every role file
+    # of the re-signed repository is written or the write fails (C10-R12, re-evaluated here)
+    from .c06 import SubCheck
+    from . import c10
+    c10.r12_writes_all(SubCheck(chk, "R3"), prog)
 
 
 def r2_delegated(chk, prog):
@@ -291,7 +315,12 @@ def r2_delegated(chk, prog):
             pushed = True
             # .. and every one of them: nothing but the end of the list (and a failing from_signed) keeps
             # a collected role out
-            fc = foreign_controls(ctx, bb, lambda o: False)
+            # (a test on the collected list itself — `if delegated_targets.is_empty()` — drops nothing)
+            the_list = lambda o: is_call(o, SDT, "alloc::vec::Vec::is_empty", "alloc::vec::Vec::len",
+                                         "core::option::Option::context", "snafu::OptionExt::context",
+                                         "core::clone::Clone::clone") or \
+                (o.kind in ("upvar", "param") and o.fields[:1] == ("signed_targets",)) or o.kind == "const"
+            fc = foreign_controls(ctx, bb, the_list)
             chk.require(not fc, "R2", ctx.fn, "re-emits-every-delegated-role",
                         "a collected delegated role is re-emitted only under a condition (on %s): a role can be "
                         "dropped from the written repository" % sorted(set(repr(o) for _, os_ in fc for o in os_))[:3],
